@@ -30,14 +30,16 @@ Big64  == "18446744073709551616"         \* 2^64
 D20    == "99999999999999999999"         \* 20 digits
 D23    == "10000000000000000000000"      \* 23 digits
 Z23    == "00000000000000000000002"      \* 23 digits, value 2
-Hostile == {"01", "007", Big32, Big64, D20, D23, Z23}
+ZBig64 == "00018446744073709551616"     \* leading zeros AND a value beyond 64 bits
+ZBig65 == "018446744073709551617"
+Hostile == {"01", "007", Big32, Big64, D20, D23, Z23, ZBig64, ZBig65}
 
 -----------------------------------------------------------------------------
 (* SemVer family: rich cores with poor pre-releases, plus a few fixed cores  *)
 (* with rich pre-release identifier lists.                                   *)
-SvIds == {"0", "1", "2", "10", "01", "alpha", "beta", "rc", "a", "A", "b", "-5", "a-b", "-",
+SvIds == {"0", "1", "2", "10", "01", "alpha", "beta", "rc", "a", "A", "b", "B", "Alpha", "Beta", "RC", "-5", "a-b", "-",
           "0a", "x", "123456789012345678", "alpha1", "1a"}
-SvId2 == {"0", "1", "10", "alpha", "a", "A", "-5", "x"}
+SvId2 == {"0", "1", "10", "alpha", "a", "A", "B", "-5", "x"}
 SvG(prefixes, fourth) ==
   [ S    |-> T(prefixes, "MAJ"),
     MAJ  |-> T({"0", "1", "10"}, "d1") \cup T({"1.0.0", "1.2.3"}, "RICH") \cup T({"01"}, "d1"),
@@ -119,7 +121,7 @@ DebChars == {"0", "1", "9", "a", "Z", ".", "+", "~", "-"}
 DebianG ==
   [ S    |-> T({"", "0:", "1:"}, "UP1") \cup T({""}, "CH"),
     UP1  |-> T({"0", "1", "2", "10", "1.0", "1.0a", "1.0+", "1a", "1a0", "1.0~rc1", "1.0~~", "1.0~", "1.00",
-                "1.01", "1.1", "1.10", "1.9", "2.0", "1.0." \o D20, "1.0." \o Z23, "1.0." \o D23, "1.0." \o Big64,
+                "1.01", "1.1", "1.10", "1.9", "2.0", "1.0." \o D20, "1.0." \o Z23, "1.0." \o D23, "1.0." \o Big64, "1.0." \o ZBig64, "1.0." \o ZBig65,
                 "1.2-3", "1.0-1", "1.0+dfsg", "1.0+b1", "1.0A", "1.0.a", "1.0-a", "1.0~a", "1.0+a"}, "REV"),
     CH   |-> T({"1"}, "C1"),
     C1   |-> T(DebChars, "C2") \cup T({""}, "REVP"),
@@ -134,7 +136,7 @@ RpmG ==
   [ S    |-> T({"", "0:", "1:"}, "V1") \cup T({""}, "CH"),
     V1   |-> T({"0", "1", "2", "10", "1.0", "1.0a", "1.0.1", "1.0.a", "1a", "1.a", "1.0~rc1", "1.0^git1", "1.0^",
                 "1.0~", "1.00", "1.01", "1.1", "1.10", "1.9", "2.0", "1.0_1", "1.0+1", "1..0", "1.0.",
-                "1.0." \o D20, "1.0." \o Z23, "1.0." \o D23, "a", "A", "1.0~^", "1.0^~"}, "REL"),
+                "1.0." \o D20, "1.0." \o Z23, "1.0." \o D23, "1.0." \o ZBig64, "1.0." \o ZBig65, "1.0." \o Big64, "a", "A", "1.0~^", "1.0^~"}, "REL"),
     CH   |-> T({"1"}, "C1"),
     C1   |-> T(RpmChars, "C2") \cup T({""}, "RELP"),
     C2   |-> T(RpmChars, "C3") \cup T({""}, "RELP"),
@@ -147,7 +149,7 @@ AlpmG ==
   [ S    |-> T({"", "0:", "1:"}, "V1"),
     V1   |-> T({"0", "1", "2", "10", "1.0", "1.0a", "1.0.1", "1.0.a", "1a", "1.a", "1.0rc", "1.0rc1", "1.0alpha",
                 "1.0beta", "1.0pre1", "1.0.rc1", "1.00", "1.01", "1.1", "1.10", "1.9", "2.0", "1.0_1", "1.0+1",
-                "1.0." \o D20, "1.0." \o Z23, "1.0." \o D23, "1.0.0", "1.0.0.0", "1.0b", "1.0B", "1.0.b1",
+                "1.0." \o D20, "1.0." \o Z23, "1.0." \o D23, "1.0." \o ZBig64, "1.0." \o ZBig65, "1.0." \o Big64, "1.0.0", "1.0.0.0", "1.0b", "1.0B", "1.0.b1",
                 "20200101", "1.0+git20200101", "1.0_alpha", "1.0.alpha", "1.", "1..a", "1a.", "1a.a", "1a0", "1..0", "1.0."}, "REL")
              \cup T({"1"}, "C1"),
     C1   |-> T({"0", "1", "a", "B", ".", "_", "+"}, "C2") \cup T({""}, "REL"),
@@ -159,7 +161,7 @@ AlpmG ==
 MvnQual == {"alpha", "beta", "milestone", "rc", "cr", "snapshot", "ga", "final", "release", "sp",
             "ALPHA", "Beta", "RC", "SNAPSHOT", "Final", "GA", "SP", "a", "b", "m", "foo", "zeta", "Foo", "xyz"}
 MavenG ==
-  [ S    |-> T({"1", "1.0", "1.0.0", "1.1", "2", "1.0.1", "1.10", "1.2.3.4", "0", "0.1", "1.01", "1." \o D20}, "SEPP")
+  [ S    |-> T({"1", "1.0", "1.0.0", "1.1", "2", "1.0.1", "1.10", "1.2.3.4", "0", "0.1", "1.01", "1." \o D20, "1." \o ZBig64, "1." \o ZBig65, "1." \o Big64}, "SEPP")
              \cup T({"1", "1.0"}, "SEP"),
     SEPP |-> T({"", "-SNAPSHOT", "-rc1", ".Final", "-1", "-sp", "-foo", "-alpha-1", ".1"}, "END"),
     SEP  |-> T({"", "-", "."}, "Q"),
@@ -171,7 +173,7 @@ MavenG ==
 GemG ==
   [ S    |-> T({""}, "NUM") \cup T({"v1.0.0", "v1.0.0.rc1", "v2", "v1.0.0-alpha"}, "END"),
     NUM  |-> T({"0", "1", "1.0", "1.0.0", "1.1", "2.0.0", "1.0.1", "1.10", "1.2.3.4", "0.1", "1.01", "1.0.0.0",
-                "2", "2.0", "1." \o D20, "1.9"}, "G1"),
+                "2", "2.0", "1." \o D20, "1." \o ZBig64, "1." \o ZBig65, "1." \o Big64, "1.9"}, "G1"),
     G1   |-> T({"", ".rc1", ".rc.1", ".beta", ".beta.2", ".a4", "-alpha", "-alpha.1", ".pre", ".a", ".b", ".RC1",
                 ".rc2", ".rc10", "-1", ".pre.1", ".z", ".alpha", ".Beta"}, "G2"),
     G2   |-> T({"", ".1", ".0", ".a", "-b"}, "END"),
@@ -197,7 +199,7 @@ AlpineG ==
 
 GentooG ==
   [ S    |-> T({"0", "1", "1.0", "1.1", "1.0.0", "1.10", "1.9", "2", "1.2.3.4.5", "1.01", "1.010", "1.1.1", "01",
-                "1." \o D20, "1." \o Z23, "1.0.0." \o Big32, "1.00", "1.001", "1.1.01", "1.1.1.0"}, "LTRP")
+                "1." \o D20, "1." \o Z23, "1." \o ZBig64, "1." \o ZBig65, "1." \o Big64, "1.0.0." \o Big32, "1.00", "1.001", "1.1.01", "1.1.1.0"}, "LTRP")
              \cup T({"1.0", "1.1"}, "LTR"),
     LTRP |-> T({"", "a", "A"}, "TAILP"),
     TAILP|-> T({"", "_rc1", "_p1", "-r1", "_alpha", "_p", "_rc1-r1"}, "END"),
@@ -265,14 +267,14 @@ ComposerG ==
 ConanG ==
   [ S    |-> T({"1", "1.0", "1.0.0", "1.2", "1.2.5", "1.02.5", "1.2.05", "01.2.5", "2", "1.10", "1.9", "1.0.0.0",
                 "1.2.3.4.5", "1a", "1.a", "1.0a", "1.0.b", "a", "1.0.0a", "1.a1", "1.1a", "abc", "1.0.A", "1.B",
-                "1." \o D20, "1." \o Z23, "0", "0.1", "1.0.1", "1.2.3", "2.0", "1.1"}, "PRE"),
+                "1." \o D20, "1." \o Z23, "1." \o ZBig64, "1." \o ZBig65, "1." \o Big64, "0", "0.1", "1.0.1", "1.2.3", "2.0", "1.1"}, "PRE"),
     PRE  |-> T({""}, "B") \cup T({"-alpha", "-beta", "-1", "-2", "-10", "-alpha.1", "-alpha.2", "-alpha.10", "-rc.1",
                                   "-a-b", "-0", "-01", "-ALPHA", "-1.alpha", "-alpha.beta", "-pre"}, "B"),
     B    |-> T({"", "+build", "+1", "+b.2"}, "END"),
     END  |-> {} ]
 
 CranG ==
-  [ S    |-> T({"0", "1", "10", "01", Z23}, "SEP1"),
+  [ S    |-> T({"0", "1", "10", "01", Z23, ZBig64, ZBig65}, "SEP1"),
     SEP1 |-> T({".", "-"}, "N2"),
     N2   |-> T({"0", "1", "9", "10"}, "OPT3"),
     OPT3 |-> T({""}, "END") \cup T({".", "-"}, "N3"),
